@@ -270,13 +270,7 @@ class LocalBackend(TrialBackend):
                 if self._is_process_done(trial_id=trial_id):
                     self._write_time_stamp(trial_id=trial_id, name="end")
 
-            log_lines = self.stdout(trial_id=trial_id)
-            if log_lines and not log_lines[-1].endswith("\n"):
-                # The last line is still being written by the training script.
-                # A report on it is incomplete (reports end with a newline) and
-                # is picked up once the line is complete
-                log_lines = log_lines[:-1]
-            metrics = retrieve(log_lines=log_lines)
+            metrics = self._retrieve_metrics(trial_id)
             trial_results = self._trial_dict[trial_id].add_results(
                 metrics=metrics,
                 status=status,
@@ -284,6 +278,20 @@ class LocalBackend(TrialBackend):
             )
             res.append(trial_results)
         return res
+
+    def _retrieve_metrics(self, trial_id: int) -> List[dict]:
+        """
+        :param trial_id: ID of trial
+        :return: All results reported by the trial so far, over all its runs
+            (``std.out`` is appended to when a trial is resumed)
+        """
+        log_lines = self.stdout(trial_id=trial_id)
+        if log_lines and not log_lines[-1].endswith("\n"):
+            # The last line is still being written by the training script.
+            # A report on it is incomplete (reports end with a newline) and
+            # is picked up once the line is complete
+            log_lines = log_lines[:-1]
+        return retrieve(log_lines=log_lines)
 
     def _release_from_worker(self, trial_id: int):
         if trial_id in self._busy_trial_id_candidates:
@@ -301,6 +309,13 @@ class LocalBackend(TrialBackend):
             pause_path.unlink()
         except FileNotFoundError:
             logger.info(f"Pause lock file {str(pause_path)} not found")
+        # Results which the previous run reported after the last poll (the job
+        # is killed only once the scheduler decided to pause the trial) are
+        # still in ``std.out``, which the resumed run appends to. They must not
+        # be delivered as results of the resumed trial: count them as seen
+        self._last_metric_seen_index[trial_id] = len(
+            self._retrieve_metrics(trial_id)
+        )
 
     def _stop_trial(self, trial_id: int, result: Optional[dict]):
         self._file_path(trial_id=trial_id, filename="stop").touch()
